@@ -23,6 +23,7 @@ LEVEL_TEXT = (
     "bootstrap branch structure and Halton index provenance, and the exactly-one-of constructor guard "
     "evaluated on all 4 rows of its truth table (exhaustive). It decides these clauses, not which sampler an "
     "agent picks at run time."
+    ' The product analysis of C10 contributes the families that are about *which* sampler runs: schedule-dependence of the sampler sequence and a later batch not run by the agent-chosen sampler; the bootstrap-position helper is decided semantically by small-scope abstract evaluation over line-ups of 1-3 samplers of 3 classes.'
 )
 TECHNIQUE = "AST/CFG path queries + formula normal form + exhaustive predicate-domain abstract evaluation"
 
